@@ -215,13 +215,20 @@ Record case := mkCase {
   c_generic_file : option bool;   (* for a model: write_model of the generic model, read_model of the file, == m;
                                      Some false also when reading raises *)
   c_encoded : option pyv;         (* for a model: json.loads(hashing._encode(m)), the dictionary ModelHash digests *)
-  c_generic_eq : option bool      (* for a model: convert_model(m, 'generic') == m *)
+  c_generic_eq : option bool;     (* for a model: convert_model(m, 'generic') == m *)
+  c_history : option (list (bop strG))  (* for a system built by add_compartment / add_flow / remove_flow only: that history *)
 }.
 
 Definition preds_idx (c : csys strG) : list nat :=
   flat_map (fun p => if has_edge_to_out strG (snd (snd p)) then [fst p] else [])
            (combine (seq 0 (List.length (cs_g strG c))) (cs_g strG c)).
 
+Definition BAC := BAddComp strG.
+Definition BAF := BAddFlow strG.
+Definition BRF := BRemoveFlow strG.
+Definition graph_same (g h : graph strG) : bool :=
+  list_eqb (fun p q => node_eqb strG (fst p) (fst q)
+                       && list_eqb (fun a b => node_eqb strG (fst a) (fst b) && String.eqb (snd a) (snd b)) (snd p) (snd q)) g h.
 Definition verdict (c : case) : list nat :=
   let x := c_obj c in
   let md := obj_to_dict x in
@@ -237,6 +244,7 @@ Definition verdict (c : case) : list nat :=
   tag (match x, c_encoded c with OModel m, Some e => pyv_same (normalise (model_encode strG m)) e | _, _ => true end) 10 ++
   tag (match x, c_generic_eq c with OModel m, Some b => Bool.eqb (model_eq strG (generic_convert strG m) m) b | _, _ => true end) 43 ++
   tag (match c_generic_eq c with Some false => false | _ => true end) 44 ++
+  tag (match x, c_history c with OCs s, Some h => graph_same (run_bops strG h) (cs_g strG s) | _, _ => true end) 45 ++
   (* the property on the implementation's own answers *)
   tag (match c_eq_back c with Some true => true | _ => false end) 11 ++
   tag (negb j || match c_eq_json c with Some true => true | _ => false end) 12 ++
